@@ -7,7 +7,7 @@ TESTS_LS = ["complex", "real", "imaginary"]
 TESTS_MI = ["complex-inv", "real-inv", "imaginary-inv"]
 
 
-def gen_model_circuit(adm, addC, addL, num_RC, logF, f, rng, signs=True):
+def gen_model_circuit(adm, addC, addL, num_RC, logF, f, rng, signs=True, negative=()):
     import numpy as np
     from pyimpspec.analysis.kramers_kronig.utility import _generate_time_constants, _generate_circuit
     w = 2 * np.pi * f
@@ -17,6 +17,8 @@ def gen_model_circuit(adm, addC, addL, num_RC, logF, f, rng, signs=True):
     for e in c.get_elements(recursive=True):
         n = type(e).__name__
         sgn = rng.choice([1, 1, 1, -1]) if signs else 1
+        if n in negative:
+            sgn = -1
         if n == "Resistor":
             e.set_values(R=sgn * scale * rng.uniform(0.5, 2))
         elif n == "KramersKronigRC":
